@@ -15,49 +15,7 @@ typedef struct TbfMortonSpaceIndex Morton;
 /* ===================================================================================== */
 #ifdef SPEC_PART_CONTRACTS
 
-/* ---- L0: the mathematical definitions, written from the property text.
- * Morton curve, dimension 0 most significant inside each DIM-bit group:
- * bit k of coordinate d is bit k*DIM + (DIM-1-d) of the index.                          */
-static inline long spec_coord(long idx, long d)
-{
-  long r = 0;
-  for(long k = 0; k < LMAX; ++k) r |= ((idx >> (k * DIM + (DIM - 1 - d))) & 1L) << k;
-  return r;
-}
-static inline long spec_index(const long *p)
-{
-  long r = 0;
-  for(long k = 0; k < LMAX; ++k)
-    for(long d = 0; d < DIM; ++d) r |= ((p[d] >> k) & 1L) << (k * DIM + (DIM - 1 - d));
-  return r;
-}
-static inline _Bool spec_coords_below(const long *p, long lim)
-{
-  for(long d = 0; d < DIM; ++d) if(p[d] < 0 || p[d] >= lim) return 0;
-  return 1;
-}
-static inline _Bool spec_decode_is(const long *p, long idx)
-{
-  for(long d = 0; d < DIM; ++d) if(p[d] != spec_coord(idx, d)) return 0;
-  return 1;
-}
-/* position codes: base-B digits, dimension 0 most significant, digit = offset + R */
-static inline long spec_code(const long *p, long B, long R)
-{
-  long c = 0;
-  for(long d = 0; d < DIM; ++d) c = c * B + (p[d] + R);
-  return c;
-}
-static inline _Bool spec_offsets_within(const long *p, long R)
-{
-  for(long d = 0; d < DIM; ++d) if(p[d] < -R || p[d] > R) return 0;
-  return 1;
-}
-static inline long spec_ipow(long b, long e) { long r = 1; for(long i = 0; i < e; ++i) r *= b; return r; }
-#define POW7 spec_ipow(7, DIM)
-#define POW3 spec_ipow(3, DIM)
-#define IDX_LIMIT (1L << (DIM * LMAX))
-#define POS_LIMIT (1L << LMAX)
+#include "morton_l0.h"
 
 /* ---- L1 contracts */
 long M(getUpperBound)(const Morton *self, const long inLevel)
@@ -76,7 +34,7 @@ __CPROVER_ensures(spec_decode_is(__CPROVER_return_value.d, inMindex))
 __CPROVER_assigns();
 
 long M(getIndexFromBoxPos)(const Morton *self, const struct ARR *inBoxPos)
-__CPROVER_requires(__CPROVER_is_fresh(inBoxPos, sizeof(*inBoxPos)))
+__CPROVER_requires(__CPROVER_r_ok(inBoxPos, sizeof(*inBoxPos)))
 __CPROVER_requires(spec_coords_below(inBoxPos->d, POS_LIMIT))
 __CPROVER_ensures(__CPROVER_return_value == spec_index(inBoxPos->d))
 __CPROVER_assigns();
@@ -109,13 +67,13 @@ __CPROVER_ensures(spec_code(__CPROVER_return_value.d, 3, 1) == inArrayPos)
 __CPROVER_assigns();
 
 long M(getInteractionIndexFromRelativePos)(const struct ARR *pos)
-__CPROVER_requires(__CPROVER_is_fresh(pos, sizeof(*pos)) && spec_offsets_within(pos->d, 3))
+__CPROVER_requires(__CPROVER_r_ok(pos, sizeof(*pos)) && spec_offsets_within(pos->d, 3))
 __CPROVER_ensures(__CPROVER_return_value == spec_code(pos->d, 7, 3))
 __CPROVER_ensures(0 <= __CPROVER_return_value && __CPROVER_return_value < POW7)
 __CPROVER_assigns();
 
 long M(getNeighborIndexFromRelativePos)(const struct ARR *pos)
-__CPROVER_requires(__CPROVER_is_fresh(pos, sizeof(*pos)) && spec_offsets_within(pos->d, 1))
+__CPROVER_requires(__CPROVER_r_ok(pos, sizeof(*pos)) && spec_offsets_within(pos->d, 1))
 __CPROVER_ensures(__CPROVER_return_value == spec_code(pos->d, 3, 1))
 __CPROVER_ensures(0 <= __CPROVER_return_value && __CPROVER_return_value < POW3)
 __CPROVER_assigns();
@@ -156,7 +114,7 @@ void h_getBoxLimit(void) { Morton m; long l; M(getBoxLimit)(&m, l); }
 void h_decode(void) { Morton m; long i; M(getBoxPosFromIndex)(&m, i); }
 
 /*@ harness h_encode enforce=TbfMortonSpaceIndex__getIndexFromBoxPos unwind=LMAX+3 props=C11,C15 */
-void h_encode(void) { Morton m; struct ARR *p; M(getIndexFromBoxPos)(&m, p); }
+void h_encode(void) { Morton m; struct ARR p; M(getIndexFromBoxPos)(&m, &p); }
 
 /*@ harness h_parent enforce=TbfMortonSpaceIndex__getParentIndex props=C11,C15 */
 void h_parent(void) { Morton m; long i; M(getParentIndex)(&m, i); }
@@ -174,10 +132,10 @@ void h_rel7(void) { long c; M(getRelativePosFromInteractionIndex)(c); }
 void h_rel3(void) { long c; M(getRelativePosFromNeighborIndex)(c); }
 
 /*@ harness h_code7 enforce=TbfMortonSpaceIndex__getInteractionIndexFromRelativePos unwind=DIM+2 props=C11,C15 */
-void h_code7(void) { struct ARR *p; M(getInteractionIndexFromRelativePos)(p); }
+void h_code7(void) { struct ARR p; M(getInteractionIndexFromRelativePos)(&p); }
 
 /*@ harness h_code3 enforce=TbfMortonSpaceIndex__getNeighborIndexFromRelativePos unwind=DIM+2 props=C11,C15 */
-void h_code3(void) { struct ARR *p; M(getNeighborIndexFromRelativePos)(p); }
+void h_code3(void) { struct ARR p; M(getNeighborIndexFromRelativePos)(&p); }
 
 /*@ harness h_nbchildren enforce=TbfMortonSpaceIndex__getNbChildrenPerCell unwind=DIM+2 props=C11 */
 void h_nbchildren(void) { M(getNbChildrenPerCell)(); }
